@@ -46,7 +46,7 @@ seq_t dtw_distance{{ suffix }}{{ suffix2 }}(seq_t *s1, idx_t l1,
     idx_t dl;
     // DTWPruned
     idx_t sc = 0;
-    idx_t ec = 0;
+    idx_t ec = settings->psi_2b;  // the first row can start at zero cost in all columns up to psi_2b
     bool smaller_found;
     idx_t ec_next;
     // signal(SIGINT, dtw_int_handler); // not compatible with OMP
@@ -244,7 +244,9 @@ seq_t dtw_distance{{ suffix }}{{ suffix2 }}(seq_t *s1, idx_t l1,
                 #ifdef DTWDEBUG
                 printf("dtw[%zu] = %f > %f\n", curidx, dtw[curidx], max_dist);
                 #endif
-                if (!smaller_found) {
+                if (!smaller_found && i >= settings->psi_1b) {
+                    // (while the next row can still start at zero cost in the first column,
+                    // its first columns cannot be skipped)
                     sc = j + 1;
                 }
                 if (j >= ec) {
